@@ -25,6 +25,7 @@ type CV struct {
 type FXV struct{ V CV }
 
 type CEnv struct {
+	idxLog *[]*Term // when non-nil: element terms produced by indexing are logged (isolated asserts abstract them)
 	c      *FCtx
 	names  map[string]Val
 	lookup func(name string, st *State, old bool) (Val, bool)
@@ -228,7 +229,20 @@ func (env *CEnv) readPV(pv PV, extra []Sel) Val {
 		// cell allocated after the old state was taken: read from the current state
 		cv, ok = env.st.cells[pv.Cell]
 		if !ok {
-			fail("contract dereferences a pointer whose target is not in the state")
+			// a nil (or dangling) pointer inside a contract: the value is unspecified
+			pt, isPtr := pv.Typ.Underlying().(*types.Pointer)
+			if !isPtr {
+				fail("contract dereferences a pointer whose target is not in the state")
+			}
+			tmp := env.st.clone()
+			cv = env.c.freshVal(tmp, "unspecified", pt.Elem())
+			for k, v := range tmp.cells {
+				if _, have := env.st.cells[k]; !have {
+					env.st.cells[k] = v
+				}
+			}
+			path := append([]Sel(nil), extra...)
+			return env.c.project(cv, path)
 		}
 	}
 	path := append(append([]Sel(nil), pv.Path...), extra...)
@@ -283,6 +297,16 @@ func (env *CEnv) memOf(lv LV) *Term {
 }
 
 func (env *CEnv) index(base Val, idx *Term, e *CExpr) Val {
+	v := env.index0(base, idx, e)
+	if env.idxLog != nil {
+		if sv, ok := v.(SV); ok && len(sv.T.Args) > 0 && sv.T.Op != "select" {
+			*env.idxLog = append(*env.idxLog, sv.T)
+		}
+	}
+	return v
+}
+
+func (env *CEnv) index0(base Val, idx *Term, e *CExpr) Val {
 	c := env.c
 	switch x := base.(type) {
 	case AV:
